@@ -1,7 +1,7 @@
 --------------------------- MODULE AtomicSaveTrace ---------------------------
 (* Trace validation for C13 (atomic save): the file-system operations that the REAL WalletStorage.write / Wallet.save
    performed (recorded by a process-wide shim around builtins.open, io.open and the os module) are run as the program of the
-   GENERIC model AtomicSave, with Crash / Leak (/ Lose when POWER) enabled at every step.  TLC therefore evaluates
+   GENERIC model AtomicSave, with Crash / Leak (/ Lose under power loss) enabled at every step.  TLC therefore evaluates
    Atomic in every state the real save went through and in every crash outcome of every prefix of it.  Whatever
    protocol the implementation uses is accepted if it is atomic; writing in place, renaming a half-written file or
    removing the old file first is rejected.
@@ -16,6 +16,7 @@ TraceLog == JsonDeserialize(IOEnv.TRACE_FILE)
 T == TraceLog[tid]
 
 TInit == /\ tid \in 1..Len(TraceLog) /\ l = 1
+         /\ proto = "trace" /\ power \in POWERS
          /\ prog = TraceLog[tid].ops /\ n = TraceLog[tid].n /\ old = TraceLog[tid].old
          /\ LET fs == InitFS(TraceLog[tid].old, TraceLog[tid].stale) IN ino = fs.ino /\ dir = fs.dir
          /\ hnd = <<>> /\ pc = 1 /\ crashed = FALSE
